@@ -227,7 +227,7 @@ type listenerInfo struct {
 }
 
 func main() {
-	mode := flag.String("mode", "inproc", "inproc|proc")
+	mode := flag.String("mode", "inproc", "inproc|handover|proc")
 	cases := flag.String("cases", "", "cases file")
 	out := flag.String("trace", "", "trace output")
 	res := flag.String("results", "", "per-case result lines")
@@ -235,6 +235,10 @@ func main() {
 	shards := flag.Int("shards", 1, "number of shards")
 	bin := flag.String("bin", "", "proc mode: path of the mosn binary")
 	flag.Parse()
+	if *mode == "handover" {
+		handoverMain(*cases, *out, *res, *shard, *shards)
+		return
+	}
 	if *mode == "proc" {
 		procMain(*cases, *out, *res, *shard, *shards, *bin)
 		return
